@@ -3,9 +3,10 @@ From Coq Require Import NArith List Bool.
 From PV Require Import Base.Sx Model.Forest Model.Table Model.LRDriver Model.Scan Model.Parser
 <<<<<<< HEAD
   Validators.TableStruct Validators.ForestSound Validators.TableComplete Extract.Codec.
-=======
   Validators.TableStruct Extract.Codec Extract.RunC19.
->>>>>>> build-C19
+=======
+  Validators.TableStruct Extract.Codec Extract.RunC12.
+>>>>>>> build-C12
 Import ListNotations.
 Local Open Scope N_scope.
 
@@ -71,11 +72,13 @@ Definition run (cmd : N) (arg : sx) : sx :=
   | 6 => run_forest_ok arg
   | 7 => run_forest_trees arg
   | 8 => run_table_complete arg
-=======
   | 190 => run_c19_unescape arg
   | 191 => run_c19_build arg
   | 192 => run_c19_match arg
   | 193 => run_c19_sort arg
->>>>>>> build-C19
+=======
+  | 120 => run_c12_120 arg
+  | 121 => run_c12_121 arg
+>>>>>>> build-C12
   | _ => L [A 999999]
   end.
